@@ -135,11 +135,17 @@ func TestC05(t *testing.T) {
 		m.Inconclusive("reference self-test failed: " + err.Error())
 		return
 	}
-	py, pyErr := ext.StartPy()
-	if pyErr != nil {
-		m.Note("python witness unavailable: " + pyErr.Error())
-	} else {
-		defer py.Close()
+	// the ref-vs-hashlib comparison does not depend on the build variant: the
+	// purego children run the same cases, so only the default build asks python
+	var py *ext.Py
+	if bv == "verif" {
+		p, pyErr := ext.StartPy()
+		if pyErr != nil {
+			m.Note("python witness unavailable: " + pyErr.Error())
+		} else {
+			py = p
+			defer py.Close()
+		}
 	}
 	arena := guard.New(8192)
 	defer arena.Free()
